@@ -25,6 +25,10 @@ func main() {
 		harness.FreshSeedsMain()
 		return
 	}
+	if len(args) == 2 && args[0] == "crashchild" {
+		harness.CrashChildMain(args[1])
+		return
+	}
 	if len(args) == 0 {
 		fmt.Println("usage: vcheck run|worker|replay|list ...")
 		os.Exit(2)
